@@ -715,7 +715,12 @@ class Visitor(ast.NodeVisitor):
             args = []  # type: List[Any]
             for arg_node in node.args:
                 if isinstance(arg_node, ast.Starred):
-                    args.extend(self.visit(node=arg_node))
+                    # The starred node itself has no value, only the iterable which it unpacks.
+                    starred = self.visit(node=arg_node.value)
+                    if starred is PLACEHOLDER:
+                        args.append(PLACEHOLDER)
+                    else:
+                        args.extend(starred)
                 else:
                     args.append(self.visit(node=arg_node))
 
